@@ -154,13 +154,13 @@ func run(prop, tier, repo, verif string, seed int, onlyKey string) int {
 					c.Floor(r.Floor)
 				}
 			}
-			// Two views of one program: when helpers were expanded (inline.go), a rule that fails on the expanded view is
-			// decided again on the tree as written; the two are the same program, so a rule holds if it holds on either
-			// view. A violation is reported only when both views have one.
+			// Two views of one program: when helpers were expanded (inline.go), a proof rule (twoViewRules) that fails on the
+			// expanded view is decided again on the tree as written; the two are the same program, so a proof on either
+			// view stands. All other rules are decided on the expanded view alone.
 			if p.Inlined > 0 && os.Getenv("MOSVERIF_ONE_VIEW") == "" {
 				failing := map[string]bool{}
 				for _, o := range c.Obs {
-					if o.Verdict == core.Violation || o.Verdict == core.Undecided {
+					if (o.Verdict == core.Violation || o.Verdict == core.Undecided) && twoViewRules[o.Rule] {
 						failing[o.Rule] = true
 					}
 				}
@@ -328,6 +328,13 @@ var progCache = map[string]*core.Prog{}
 
 // loadCached loads a build variant once per process (multi-property runs share the load).
 var inlineNotes = map[string][]string{}
+
+// twoViewRules: the rules whose verdict on the tree as written is a proof in its own right (the bounds prover with
+// verified contracts, the pool-provenance dataflow): for these a failure on the expanded view is decided again on the
+// written view. Pattern rules are NOT in this set: their helper-following on the written view is more lenient than what
+// they see once the helper is expanded (a seeded change hidden in a helper passed on the written view), so for them the
+// expanded view is the verdict.
+var twoViewRules = map[string]bool{"R01a": true, "R01c": true}
 
 // loadRaw loads the tree as written (no helper expansion).
 func loadRaw(repo, goos string) (*core.Prog, error) {
